@@ -31,6 +31,80 @@ def brute_max(state, data, dim):
     return best, nodes, lp
 
 
+def dp_max(state, data, dim):
+    """Independent max-plus recursion (plain Python): best total score with top-level clones summing to <= G-1."""
+    ch = oracle.children_map(state)
+    dmap = {d.idx: d for d in data}
+    G = data[0].value.shape[1]
+    NEG = -math.inf
+
+    def maxconv(a, b):
+        return [max(a[j] + b[k - j] for j in range(k + 1)) for k in range(G)]
+
+    def f(b):
+        lp = [sum(dmap[i].value[dim][k] for i in b) for k in range(G)]
+        kids = ch.get(b, [])
+        if not kids:
+            return lp
+        h = f(kids[0])
+        for c in kids[1:]:
+            h = maxconv(h, f(c))
+        g, best = [], NEG
+        for k in range(G):
+            best = max(best, h[k])
+            g.append(best)
+        return [lp[k] + g[k] for k in range(G)]
+
+    tops = ch.get(None, [])
+    h = f(tops[0])
+    for c in tops[1:]:
+        h = maxconv(h, f(c))
+    return max(h)
+
+
+def large_case(item):
+    par, G, dims, kind, seed = item
+    from phyclone.process_trace.map import get_map_node_ccfs_and_clonal_prev_dicts
+
+    K = len(par)
+    state, n = forest_state(par, [1 + (i % 2) for i in range(K)])
+    data = oracle.make_data(n, dims=dims, grid=G, kind=kind, seed=seed)
+    res = {"item": item, "problems": [], "n": 0}
+    ch = oracle.children_map(state)
+    t = oracle.build(state, data)
+    t.relabel_nodes()
+    try:
+        ccfs, prevs = get_map_node_ccfs_and_clonal_prev_dicts(t)
+    except Exception as e:
+        res["problems"].append("raised %s: %s" % (type(e).__name__, e))
+        return res
+    nd = t.node_data
+    name_of = {frozenset(d.idx for d in v): k for k, v in nd.items() if k != t.outlier_node_name}
+    dmap = {d.idx: d for d in data}
+    for dim in range(dims):
+        res["n"] += 1
+        idx = {}
+        for b, nm in name_of.items():
+            k = float(ccfs[nm][dim]) * (G - 1)
+            if abs(k - round(k)) > 1e-9:
+                res["problems"].append("CCF %r not on the grid" % (ccfs[nm][dim],))
+                return res
+            idx[b] = int(round(k))
+        for b in name_of:
+            s_ = sum(idx[c] for c in ch.get(b, []))
+            if s_ > idx[b]:
+                res["problems"].append("clone %r below the sum of its children (sample %d)" % (sorted(b), dim))
+            if abs(float(prevs[name_of[b]][dim]) - (idx[b] - s_) / (G - 1)) > 1e-9:
+                res["problems"].append("clone %r prevalence %r != ccf - children" % (sorted(b), float(prevs[name_of[b]][dim])))
+        if sum(idx[c] for c in ch.get(None, [])) > G - 1:
+            res["problems"].append("top-level clones sum above one (sample %d)" % dim)
+        val = sum(sum(dmap[i].value[dim][idx[b]] for i in b) for b in name_of)
+        best = dp_max(state, data, dim)
+        if not val >= best - 1e-9:
+            res["problems"].append("large forest %r grid %d sample %d: reported assignment scores %.10g, the maximum is %.10g" % (list(par), G, dim, val, best))
+    return res
+
+
 def case(item):
     par, G, dims, kind, seed = item
     from phyclone.process_trace.map import get_map_node_ccfs_and_clonal_prev_dicts
@@ -134,6 +208,22 @@ def main(tier, seed):
     chk.rule = ("every rooted labelled forest on K<=4 (5) nodes x grid {2..5} x samples {1,2} x data alphabet incl. forced ties, three sibling/label variants; "
                 "oracle: brute-force maximum over all feasible index assignments; non-trivial = forest with >= 2 nodes")
     chk.assumptions = ["ties: any maximiser accepted", "score = sum over clones of the clone's summed data log-likelihood at its grid index (the constant grid prior drops out)"]
+    from mc.checks.c02 import large_forests
+
+    # the independent max-plus oracle is first validated against the brute force on small forests
+    for par in list(oracle.forests(3))[:8]:
+        st_, n_ = forest_state(par, [1, 2, 1])
+        dd = oracle.make_data(n_, dims=1, grid=4, kind="generic", seed=seed)
+        if abs(dp_max(st_, dd, 0) - brute_max(st_, dd, 0)[0]) > 1e-9:
+            chk.violation({"sub": "oracle"}, {"problem": "harness: max-plus oracle disagrees with the brute force"}, {"oracle": list(par)})
+    litems = [(par, G, dims, kind, seed) for par in large_forests() for G in (5, 11) for dims, kind in ((1, "generic"), (2, "peaked"), (1, "ties" if False else "flat"))]
+    for r in pool_imap(large_case, litems, chunksize=2):
+        chk.states.add(("large",) + tuple(r["item"][:4]))
+        chk.nontrivial.add(("large",) + tuple(r["item"][:4]))
+        chk.transitions += r["n"]
+        chk.traces_validated += r["n"]
+        for pr in r["problems"][:2]:
+            chk.violation({"sub": "map-ccf-large", "K": len(r["item"][0]), "what": pr.split(":")[0][:30]}, {"forest_parent_vector": list(r["item"][0]), "grid": r["item"][1], "problem": pr}, {"large": list(r["item"])})
     for r in pool_imap(case, items(tier, seed), chunksize=8):
         par, G, dims, kind, _ = r["item"]
         chk.states.add((par, G, dims, kind))
@@ -151,6 +241,11 @@ def main(tier, seed):
 
 def replay(path):
     body = json.load(open(path))
+    if "large" in body["replay"]:
+        it = body["replay"]["large"]
+        r = large_case((tuple(it[0]), it[1], it[2], it[3], it[4]))
+        print(r["problems"])
+        return 1 if r["problems"] else 0
     it = body["replay"]["item"]
     r = case((tuple(it[0]), it[1], it[2], it[3], it[4]))
     print(r["problems"])
